@@ -4,11 +4,6 @@ set_option linter.unusedSimpArgs false
 namespace Dovi.Hevc
 open Dovi
 
-theorem optMap_some {α β : Type} (f : α → β) (l : List α) : optMap (fun a => some (f a)) l = some (l.map f) := by
-  induction l with
-  | nil => rfl
-  | cons a l ih => simp [optMap, ih]
-
 theorem sortK_length (l : List (Nat × Bytes)) : (sortK l).length = l.length := (sortK_perm l).length_eq
 
 theorem keyed_length (pres : Nat → Nat) (k : Nat) (rs : List Bytes) : (keyed pres k rs).length = rs.length := by
